@@ -13,15 +13,150 @@ var wfAssumptions = []string{
 
 func propTable() map[string]PropSpec {
 	t := map[string]PropSpec{}
+	swr := map[string]string{coordPkg + ".seriesWithRate": coordPkg + ".vSwr"}
+	H := func(entry string, cosim int, args ...int) HarnessRun {
+		return HarnessRun{Entry: entry, Args: args, Cosim: cosim, Subst: swr}
+	}
+	lemmas := []HarnessRun{H("VLemmaSwr", 0, 0), H("VLemmaSwr", 0, 1), H("VLemmaSwr", 0, 2), H("VLemmaSwr", 0, 3), H("VLemmaSwr", 0, 4), H("VLemmaSwr", 0, 5), H("VLemmaSwr", 0, 6)}
+	for i := range lemmas {
+		lemmas[i].Subst = nil // the lemma obligations run the real seriesWithRate in floating-point theory
+	}
+	cycleOutside := []string{"more shards / targets than the stated (S,K) configurations", "series and limit values above 2^40, scrape counters above 2^16", "needed space / limit >= 2^31 (int32 conversion in tryScaleUp) is not excluded: it is inside the bound and decided exactly",
+		"data races between the per-shard goroutines of getShardInfos/applyShardsInfo (errgroup closures run synchronously)", "the HTTP/JSON transport between shard.Shard and the sidecar (Shard.APIGet/APIPost are the observation points)"}
+	t["C01"] = PropSpec{
+		ID: "C01", Pkg: coordPkg, NativeDir: "coordinator",
+		Quick:    append([]HarnessRun{H("VGC", 8, 2, 2), H("VRelief", 4, 2, 1), H("VAssign", 4, 2, 2), H("VScaleDown", 4, 2, 1), H("VCycle", 12, 1, 1, 3), H("VCycle", 4, 2, 0, 2)}, lemmas...),
+		Thorough: append([]HarnessRun{H("VGC", 8, 2, 2), H("VGC", 8, 3, 1), H("VGC", 8, 3, 2), H("VRelief", 4, 2, 2), H("VRelief", 4, 3, 1), H("VAssign", 4, 2, 2), H("VAssign", 4, 3, 1), H("VScaleDown", 4, 2, 2), H("VScaleDown", 4, 3, 1), H("VCycle", 16, 1, 1, 3), H("VCycle", 8, 1, 2, 0), H("VCycle", 8, 2, 1, 0), H("VCycle", 4, 3, 0, 2)}, lemmas...),
+		Required: []string{"gc.removed", "gc.rule1", "c01.reported", "c01.removed", "relief.moved", "assign.placed", "cycle.end"},
+		Prefixes: []string{"C01."},
+		Bounds:   "phase lemmas (gcTargets, alleviateShards, assignNoScrapingTargets, tryScaleDown) from arbitrary well-formed pre-states with S<=2 shards, K<=2 hashes (thorough S<=3); whole runOnce cycles at (S,K) = (1,1) with failing POSTs / ChangeScale and (2,0) (thorough + (1,2), (2,1), (3,0)); every map-iteration order and random pick; loop unwinding 12 with unwinding assertion",
+		Assume:   wfAssumptions, Outside: cycleOutside,
+	}
+	t["C04"] = PropSpec{
+		ID: "C04", Pkg: coordPkg, NativeDir: "coordinator",
+		Quick:    append([]HarnessRun{H("VRelief", 6, 2, 1), H("VAssign", 6, 2, 2), H("VScaleDown", 6, 2, 2), H("VCycle", 12, 1, 1, 0)}, lemmas...),
+		Thorough: append([]HarnessRun{H("VRelief", 6, 2, 2), H("VRelief", 6, 3, 1), H("VAssign", 6, 2, 2), H("VAssign", 6, 3, 2), H("VScaleDown", 6, 2, 2), H("VScaleDown", 6, 3, 1), H("VCycle", 12, 1, 1, 0), H("VCycle", 8, 1, 2, 0), H("VCycle", 8, 2, 1, 8), H("VCycle", 8, 2, 2, 8)}, lemmas...),
+		Required: []string{"relief.placed", "assign.placed", "scaledown.placed", "c04.placed", "c04.scalecall"},
+		Prefixes: []string{"C04."},
+		Bounds:   "one lemma per placement site (head relief, process relief, first assignment, scale-down transfer) with S<=2, K<=2 (thorough S<=3); whole cycles at (1,1) (thorough + (1,2), and (2,1), (2,2) with all shards in sync); with and without a head-series limit",
+		Assume:   wfAssumptions, Outside: cycleOutside,
+	}
 	t["C05"] = PropSpec{
 		ID: "C05", Pkg: coordPkg, NativeDir: "coordinator",
-		Quick:    []HarnessRun{{Entry: "VGC", Args: []int{2, 1}, Cosim: 8}, {Entry: "VGC", Args: []int{2, 2}, Cosim: 8}},
-		Thorough: []HarnessRun{{Entry: "VGC", Args: []int{2, 2}, Cosim: 16}, {Entry: "VGC", Args: []int{3, 1}, Cosim: 16}, {Entry: "VGC", Args: []int{3, 2}, Cosim: 8}},
-		Required: []string{"gc.handover", "gc.removed"},
+		Quick:    []HarnessRun{H("VGC", 8, 2, 1), H("VGC", 8, 2, 2), H("VRelief", 4, 2, 1), H("VScaleDown", 4, 2, 1), H("VCycle", 8, 1, 1, 0), H("VCycle", 8, 2, 1, 8)},
+		Thorough: []HarnessRun{H("VGC", 8, 2, 2), H("VGC", 8, 3, 1), H("VGC", 8, 3, 2), H("VRelief", 4, 2, 2), H("VRelief", 4, 3, 1), H("VScaleDown", 4, 2, 2), H("VScaleDown", 4, 3, 1), H("VCycle", 8, 2, 1, 0), H("VCycle", 8, 2, 2, 8)},
+		Required: []string{"gc.handover", "gc.removed", "relief.moved", "scaledown.moved", "c05.moved", "c05.handover"},
 		Prefixes: []string{"C05."},
-		Bounds:   "S<=2 shards, K<=2 hashes (quick); S<=3, K<=2 (thorough); loop unwinding 12 with unwinding assertion",
+		Bounds:   "gcTargets / relief / scale-down lemmas with S<=2, K<=2 (thorough S<=3); whole cycles at (1,1), (2,1) (thorough (2,1) with every shard kind, (2,2) in sync); the constant 3 of the hand-over rule is taken from README, not from the code",
 		Assume:   wfAssumptions,
-		Outside:  []string{"S>3, K>2", "series values >= 2^40", "multi-cycle composition (argued in DESIGN.md section 5/C05)"},
+		Outside:  append([]string{"multi-cycle composition of clauses (i)-(iii) into 'no interval without a scraper' is argued in DESIGN.md, each clause is decided per cycle"}, cycleOutside...),
+	}
+	t["C07"] = PropSpec{
+		ID: "C07", Pkg: coordPkg, NativeDir: "coordinator",
+		Quick:    []HarnessRun{H("VScaleDown", 6, 2, 1), H("VScaleDown", 6, 3, 1), H("VCycle", 12, 1, 1, 0), H("VCycle", 8, 2, 0, 0), H("VCycle", 4, 3, 0, 0)},
+		Thorough: []HarnessRun{H("VScaleDown", 6, 2, 2), H("VScaleDown", 6, 3, 1), H("VScaleDown", 6, 3, 2), H("VCycle", 12, 1, 1, 2), H("VCycle", 8, 1, 2, 0), H("VCycle", 8, 2, 1, 0), H("VCycle", 4, 3, 0, 0), H("VCycle", 4, 4, 0, 8)},
+		Required: []string{"scaledown.end", "c07.scalecall", "scaledown.moved"},
+		Prefixes: []string{"C07."},
+		Bounds:   "every ChangeScale argument of whole cycles at (S,K) = (1,1), (2,0), (3,0) (thorough + (1,2), (2,1), (4,0) in sync) with symbolic idle instants against a symbolic clock; tryScaleDown lemma with S<=3, K<=2",
+		Assume:   append([]string{"time.Now: first reading arbitrary in [0,2^60), each later reading adds an arbitrary step in [0,2^50] ns; a shard whose idle time expires during the cycle is exempt from the keeps-used clause"}, wfAssumptions...),
+		Outside:  cycleOutside,
+	}
+	t["C08"] = PropSpec{
+		ID: "C08", Pkg: coordPkg, NativeDir: "coordinator",
+		Quick:    []HarnessRun{H("VCycle", 12, 1, 1, 7), H("VCycle", 6, 2, 0, 4), H("VAssign", 4, 2, 2), H("VRelief", 4, 2, 1), H("VScaleDown", 4, 2, 1)},
+		Thorough: []HarnessRun{H("VCycle", 12, 1, 1, 7), H("VCycle", 6, 1, 2, 4), H("VCycle", 6, 2, 1, 4), H("VAssign", 4, 3, 2), H("VRelief", 4, 2, 2), H("VRelief", 4, 3, 1), H("VScaleDown", 4, 3, 1)},
+		Required: []string{"c08.unready", "c08.statusfail", "c08.runtimefail", "c08.hashdiffers", "c08.outofsync", "c08.insync", "c08.heldoutofsync", "assign.placed"},
+		Prefixes: []string{"C08."},
+		Bounds:   "complete request log per shard under the full seven-step health script (ready, status GET, runtime GET, hash, config POST, second runtime GET, hash) at (S,K) = (1,1) incl. failing POSTs, (2,0) (thorough + (1,2), (2,1)); destination-is-in-sync lemmas for every placement site with S<=3",
+		Assume:   wfAssumptions, Outside: cycleOutside,
+	}
+	sidePkg := "tkestack.io/kvass/pkg/sidecar"
+	scrapePkg := "tkestack.io/kvass/pkg/scrape"
+	targetPkg := "tkestack.io/kvass/pkg/target"
+	proxySubst := map[string]string{
+		"(*net/http.Client).Do": sidePkg + ".vClientDo",
+		"github.com/VictoriaMetrics/VictoriaMetrics/lib/protoparser/prometheus.ParseStream": sidePkg + ".vParseStream",
+		"github.com/VictoriaMetrics/VictoriaMetrics/lib/protoparser/common.GetGzipReader":   sidePkg + ".vGetGzipReader",
+		"github.com/VictoriaMetrics/VictoriaMetrics/lib/protoparser/common.PutGzipReader":   sidePkg + ".vPutGzipReader",
+		"(*github.com/klauspost/compress/gzip.Reader).Read":                                  sidePkg + ".vGzipRead",
+		"github.com/prometheus/prometheus/model/relabel.Process":                             scrapePkg + ".VRelabelModel",
+	}
+	relabelSubst := map[string]string{"github.com/prometheus/prometheus/model/relabel.Process": scrapePkg + ".VRelabelModel"}
+	P := func(entry string, cosim int, args ...int) HarnessRun {
+		return HarnessRun{Entry: entry, Args: args, Cosim: cosim, Subst: proxySubst, Unwind: 160}
+	}
+	sideAssume := []string{
+		"logging and metrics calls are no-ops; errors are opaque non-nil values; fmt.Errorf with literal text in the format never yields the empty string",
+		"abstract store: json.Marshal snapshots the object graph (fields tagged json:\"-\" are not restored), a file is absent / whole blob / proper prefix, json.Unmarshal succeeds iff given a whole blob and otherwise leaves the destination untouched, ioutil.WriteFile truncates then writes",
+		"timeNow (the sidecar's clock variable) is set by the harness to symbolic instants",
+	}
+	t["C10"] = PropSpec{
+		ID: "C10", Pkg: sidePkg, NativeDir: "sidecar",
+		Quick:    []HarnessRun{{Entry: "VTMStep", Args: []int{2}, Cosim: 12}, {Entry: "VTMRestart", Args: []int{2}, Cosim: 6}},
+		Thorough: []HarnessRun{{Entry: "VTMStep", Args: []int{2}, Cosim: 16}, {Entry: "VTMStep", Args: []int{3}, Cosim: 16}, {Entry: "VTMRestart", Args: []int{3}, Cosim: 8}},
+		Required: []string{"tm.kept", "tm.new", "tm.becomes.idle", "tm.stays.idle", "restart.end"},
+		Prefixes: []string{"C10."},
+		Bounds:   "one inductive step of UpdateTargets/updateStatus/updateIdleState/doCallbacks/saveTargets + Service.runtimeInfo from an arbitrary state satisfying the representation invariant, over a universe of K<=2 hashes (thorough 3) and 2 jobs, any request (adds, removals, state flips, repeats, empty, moves between jobs, an empty job list), failing callback; base case and restart through Load on the abstract store",
+		Assume:   sideAssume,
+		Outside:  []string{"K>3 hashes, more than 2 jobs", "interleaving of updates with concurrent scrapes (the proxy mutates the same status objects without a lock)", "byte-level JSON fidelity of the store (contract of the abstract store)"},
+	}
+	t["C09"] = PropSpec{
+		ID: "C09", Pkg: sidePkg, NativeDir: "sidecar",
+		Quick:    []HarnessRun{{Entry: "VStoreCrash", Args: []int{1}, Cosim: 12}, {Entry: "VTMRestart", Args: []int{2}, Cosim: 6}},
+		Thorough: []HarnessRun{{Entry: "VStoreCrash", Args: []int{2}, Cosim: 16}, {Entry: "VTMRestart", Args: []int{3}, Cosim: 8}},
+		Required: []string{"fs.write.ok", "fs.write.err.before", "fs.write.err.partial", "fs.kill.before", "fs.kill.partial", "store.old", "store.end", "restart.end"},
+		Prefixes: []string{"C09."},
+		Bounds:   "two consecutive arbitrary assignments over K<=1 hashes (thorough 2), both states, empty sets; the second update interrupted by each store fault (error before / after a proper prefix, process killed before / part-way); then two consecutive restarts; old-version store file present or not",
+		Assume:   sideAssume,
+		Outside:  []string{"byte-level JSON fidelity (label values needing escaping, large sets): encoding/json is reflection-driven and is the contract of the abstract store; exercised only by the native co-simulation samples", "the exact byte offset of a partial write: every proper prefix (including the empty file) is one case of the store model", "file-system behaviour other than truncate-then-write (no fsync / rename semantics are modelled because the code uses none)"},
+	}
+	t["C13"] = PropSpec{
+		ID: "C13", Pkg: sidePkg, LoadPkgs: []string{scrapePkg}, NativeDir: "sidecar",
+		Quick:    []HarnessRun{P("VProxy", 24, 0), P("VProxy", 0, 1)},
+		Thorough: []HarnessRun{P("VProxy", 64, 0), P("VProxy", 0, 1)},
+		Required: []string{"proxy.ok", "proxy.failed", "proxy.notattempted", "proxy.stopped", "proxy.end"},
+		Prefixes: []string{"C13."},
+		Bounds:   "one request through Proxy.ServeHTTP, translateURL, Scraper.RequestTo/ParseResponse, wrappedReader.Read, StatisticSeries, ScrapeStatus.SetScrapeErr/UpdateScrapeResult against a scripted target: connection error, non-200, failing gzip header, a 51-byte payload split into <=3 chunks breaking off after 0..3 delivered reads (before and after the response was committed), EOF with or without data, empty body, scraping stopped, target assigned or not, unknown job / unparsable hash, Prometheus-side write failing at the 1st or 2nd write or accepting short writes",
+		Assume:   append([]string{"net/http.ResponseWriter contract: first Write commits 200 unless WriteHeader came earlier, WriteHeader after commit is ignored, returning normally completes the response", "ParseStream contract model: reads until the reader reports an error; io.EOF = success and the callback receives the rows of everything read; other errors are returned", "(*http.Client).Do returns the scripted response; the gzip reader is an opaque reader over the decompressed bytes"}, sideAssume...),
+		Outside:  []string{"time-outs as wall-clock events (only the error path they produce)", "real TCP behaviour below io.Reader", "VictoriaMetrics' parser itself and real gzip decoding (contract stubs; the identity-encoding cases are co-simulated against the real libraries)"},
+	}
+	c12 := t["C13"]
+	c12.ID = "C12"
+	c12.Quick = []HarnessRun{{Entry: "VTee", Pkg: scrapePkg, Args: []int{3, 2}, Cosim: 12}, P("VProxy", 16, 0), P("VProxy", 0, 1)}
+	c12.Thorough = []HarnessRun{{Entry: "VTee", Pkg: scrapePkg, Args: []int{4, 2}, Cosim: 16}, P("VProxy", 48, 0), P("VProxy", 0, 1)}
+	c12.Required = []string{"tee.writer.complete", "tee.writer.failed", "proxy.ok", "tee.end"}
+	c12.Prefixes = []string{"C12."}
+	c12.Bounds = "tee kernel wrappedReader.Read: one reader step (n, err) with n <= 3 symbolic bytes (thorough 4), 2 writers each with <= 3 partial writes of 1-2 bytes and a failure at call 1..3; whole responses through Proxy.ServeHTTP as in C13 (51-byte payload, <= 3 chunks, identity and gzip path)"
+	c12.Outside = []string{"that VictoriaMetrics' ParseStream really drains the reader for every payload within its line limit (contract stub)", "real gzip decoding, many-megabyte bodies, HTTP chunking below io.Reader", "payload contents other than the fixed 51-byte exposition text in the whole-response harness (the tee kernel is decided for arbitrary bytes)"}
+	t["C12"] = c12
+	t["C14"] = PropSpec{
+		ID: "C14", Pkg: scrapePkg, LoadPkgs: []string{targetPkg, sidePkg}, NativeDir: "scrape",
+		Quick: []HarnessRun{{Entry: "VStats", Args: []int{3}, Subst: relabelSubst, Cosim: 8},
+			{Entry: "VWindow", Pkg: targetPkg, Args: []int{0, 20}}, {Entry: "VWindow", Pkg: targetPkg, Args: []int{1, 20}}, {Entry: "VWindow", Pkg: targetPkg, Args: []int{2, 20}}, {Entry: "VWindow", Pkg: targetPkg, Args: []int{3, 20}},
+			{Entry: "VTMStep", Pkg: sidePkg, Args: []int{2}}, P("VProxy", 0, 0)},
+		Thorough: []HarnessRun{{Entry: "VStats", Args: []int{4}, Subst: relabelSubst, Cosim: 8},
+			{Entry: "VWindow", Pkg: targetPkg, Args: []int{0, 32}}, {Entry: "VWindow", Pkg: targetPkg, Args: []int{1, 32}}, {Entry: "VWindow", Pkg: targetPkg, Args: []int{2, 32}}, {Entry: "VWindow", Pkg: targetPkg, Args: []int{3, 32}},
+			{Entry: "VTMStep", Pkg: sidePkg, Args: []int{3}}, P("VProxy", 0, 0)},
+		Required: []string{"stats.end", "window.end", "tm.end", "proxy.ok"},
+		Prefixes: []string{"C14."},
+		Bounds:   "StatisticSeries over <= 3 rows (thorough 4) in two blocks, metric names from a pool of 2, symbolic keep/drop verdict per row; UpdateScrapeResult from an arbitrary window of length 0..3 with values < 2^20 (thorough 2^32) in exact floating-point theory; Service.runtimeInfo sums over <= 2 (3) targets; composition through Proxy.ServeHTTP on the fixed 5-sample payload",
+		Assume:   append([]string{"relabel.Process contract model: identity when no rule is configured, otherwise nil (dropped) or the label set (kept) per sample"}, sideAssume...),
+		Outside:  []string{"the relabel rule language itself (regexp)", "window values >= 2^32", "/samples/ endpoint aggregation in the coordinator"},
+	}
+	k8sPkg := "tkestack.io/kvass/pkg/shard/kubernetes"
+	k8sSubst := map[string]string{"k8s.io/apimachinery/pkg/api/errors.IsNotFound": k8sPkg + ".vIsNotFound"}
+	K := func(entry string, cosim int, args ...int) HarnessRun {
+		return HarnessRun{Entry: entry, Args: args, Cosim: cosim, Subst: k8sSubst, Unwind: 20}
+	}
+	t["C18"] = PropSpec{
+		ID: "C18", Pkg: k8sPkg, NativeDir: "shard/kubernetes",
+		Quick:    []HarnessRun{K("VChangeScale", 12, 1), K("VChangeScale", 12, 2), K("VShards", 6, 2), K("VShards", 6, 3), K("VReplicas", 8)},
+		Thorough: []HarnessRun{K("VChangeScale", 24, 0), K("VChangeScale", 24, 1), K("VChangeScale", 24, 2), K("VShards", 6, 1), K("VShards", 6, 2), K("VShards", 12, 3), K("VReplicas", 16)},
+		Required: []string{"scale.noop", "scale.change", "scale.deleted", "shards.end", "replicas.end"},
+		Prefixes: []string{"C18."},
+		Bounds:   "ChangeScale with current and requested replica counts symbolic in [0,6] (incl. Spec.Replicas == nil), T <= 2 volume claim templates, symbolic deletion flag, Get / Update / Delete failures, IsNotFound arbitrary; Shards() with <= 3 pods in every list order and readiness pattern; Replicas() with 2 StatefulSets with symbolic status counters in [0,8]",
+		Assume:   []string{"client-go is replaced by fakes that record Get / Update / Delete / List calls (the server side of the API is not modelled)", "fmt.Sprintf of a symbolic ordinal is concretised by forking over [0,16]", "logging is a no-op"},
+		Outside:  []string{"replica counts above 6, more than 2 claim templates or 3 pods", "label-selector plumbing inside client-go", "the 2-minute not-ready grace period against real time (only its logic against the symbolic clock)"},
 	}
 	return t
 }
